@@ -129,8 +129,7 @@ func (m *Module) handleSetEntityAction(ctx context.Context, respond hwebsocket.R
 		return nil
 	}
 
-	latestEntityAction, ok := m.state.EntityAction(entityAction.EntityId, entityAction.Name)
-	if ok && entityAction.Timestamp.AsTime().Before(latestEntityAction.Timestamp.AsTime()) {
+	if !m.state.SetEntityActionIfNotOlder(entityAction) {
 		respond.Send(&hagallpb.ErrorResponse{
 			Type:      hagallpb.MsgType_MSG_TYPE_ERROR_RESPONSE,
 			Timestamp: timestamppb.Now(),
@@ -139,8 +138,6 @@ func (m *Module) handleSetEntityAction(ctx context.Context, respond hwebsocket.R
 		})
 		return nil
 	}
-
-	m.state.SetEntityAction(entityAction)
 
 	// The entity may have been removed by its owner since it was looked up;
 	// the action must not outlive it.
